@@ -563,6 +563,8 @@ func (pc pathCtx) classifyCall(c *ssa.Call, res int) leafClass {
 		return leafClass{ok: true, what: "layout path of a descriptor (callers checked by C20.R4)"}
 	case core.IsModFunc(cal, "types/referrer", "FallbackTag"):
 		return leafClass{tainted: true, what: "fallback tag used as a path element"}
+	case func() bool { ok, k := spoolHelper(c.Call.StaticCallee()); return ok && (res == k || res == -1) }():
+		return leafClass{ok: true, what: "name of a temp file made by " + cal.Name()}
 	case pkg == "os" || pkg == "github.com/spf13/cobra" || pkg == "github.com/yuin/gopher-lua":
 		return leafClass{ok: true, what: "value supplied by the local user (" + cal.Name() + ")"}
 	}
